@@ -288,6 +288,9 @@ type repoManager struct {
 	branchToUUID map[string]dvid.UUID
 	branchMutex  sync.RWMutex
 
+	// Serializes creation of versions (newVersion, merge).  Always the first mutex taken.
+	versionMu sync.Mutex
+
 	// Counters that provide the local IDs of the next new repo, version, or data instance.
 	// Valid counters should be >= 1, so we can distinguish between valid ids and the
 	// default zero value.
@@ -1802,6 +1805,13 @@ func (m *repoManager) makeMaster(newMasterUUID dvid.UUID, oldMasterBranchName st
 // newVersion creates a new version as a child of the given parent.  If the
 // assign parameter is not nil, the new node is given the UUID.
 func (m *repoManager) newVersion(parent dvid.UUID, note string, branchname string, assign *dvid.UUID) (dvid.UUID, error) {
+	// The branch-uniqueness check and the append to the parent's children below run under
+	// node.RLock(), a shared lock: two concurrent requests could both pass the check.  A merge
+	// waiting for node.Lock() while this function saves the repo (which read-locks the node
+	// again) would block both for ever.  One version is created at a time.
+	m.versionMu.Lock()
+	defer m.versionMu.Unlock()
+
 	r, err := m.repoFromUUID(parent)
 	if err != nil {
 		return dvid.NilUUID, err
@@ -1918,6 +1928,9 @@ func (m *repoManager) newVersion(parent dvid.UUID, note string, branchname strin
 }
 
 func (m *repoManager) merge(parents []dvid.UUID, note string, mt MergeType) (dvid.UUID, error) {
+	m.versionMu.Lock()
+	defer m.versionMu.Unlock()
+
 	if len(parents) < 2 {
 		return dvid.NilUUID, ErrInvalidUUID
 	}
